@@ -103,3 +103,13 @@ package scparser
 //@ assumed
 //@ pure
 //@ ensures result2 == multiScript(script) && result0 == multiM(script) && 0 <= result0 && result0 <= 1024
+
+// (C18) reading a pushed integer back as int64: a 128- or 256-bit operand is accepted only when
+// every byte above the low eight is zero and the value is non-negative in 64 bits, so what comes
+// back is the number that was pushed or an error, never its low bits.
+//@ prop C18
+//@ func GetInt64FromInstr
+//@ may-panic
+//@ opt frame off
+//@ ensures[wide] result1 == nil && (instr.Op == opcode.PUSHINT128 || instr.Op == opcode.PUSHINT256) ==> forall(k, 8, len(instr.Param), instr.Param[k] == 0) && instr.Param[7] < 128
+//@ loop 0 invariant[zero] forall(k, 8, 8 + $i, instr.Param[k] == 0)
